@@ -1200,7 +1200,8 @@ def case_transpose_pattern(case):
     """the whole pattern on a concrete constant with distinct values (dense attribute packing is C level)."""
     from xdsl.parser import Parser
 
-    rows, cols = case
+    rows, cols = case[:2]
+    yields = case[2] if len(case) > 2 else "in"  # "out": the body returns the init value - maps of a transpose, but no transpose
     data = ", ".join("[" + ", ".join(str(r * cols + c) for c in range(cols)) + "]" for r in range(rows))
     src = f"""
 builtin.module {{
@@ -1209,7 +1210,7 @@ builtin.module {{
     %e = tensor.empty() : tensor<{cols}x{rows}xi8>
     %t = linalg.generic {{indexing_maps = [affine_map<(d0, d1) -> (d1, d0)>, affine_map<(d0, d1) -> (d0, d1)>], iterator_types = ["parallel", "parallel"]}} ins(%c : tensor<{rows}x{cols}xi8>) outs(%e : tensor<{cols}x{rows}xi8>) {{
     ^bb0(%in : i8, %out : i8):
-      linalg.yield %in : i8
+      linalg.yield %{yields} : i8
     }} -> tensor<{cols}x{rows}xi8>
     func.return %t : tensor<{cols}x{rows}xi8>
   }}
@@ -1227,6 +1228,10 @@ builtin.module {{
         PatternRewriteWalker(RemoveTransposeConstants(), apply_recursively=False).rewrite_module(m)
         consts = [op for op in m.walk() if op.name == "arith.constant"]
         gens = [op for op in m.walk() if op.name == "linalg.generic"]
+        if yields == "out":
+            ret = [op for op in m.walk() if op.name == "func.return"][0]
+            E.oblige("transpose_pattern:generic_that_returns_its_init_value_is_not_folded", ret.operands[0].owner.name == "linalg.generic", dict(returned=ret.operands[0].owner.name))
+            return
         E.oblige("transpose_pattern:folded", len(consts) == 1 and not gens, dict(module=str(m)[:300]))
         if len(consts) != 1 or gens:
             return
@@ -1325,7 +1330,7 @@ def run(chk):
     chk.add_results("dynamic_stand_in_shape", pmap(case_dynamic_shape, [(sh, ("in",)) for sh in dshapes], chunks=2))
     tr = [(r, c) for r in range(1, 6) for c in range(1, 6)]
     chk.add_results("transpose_tuple", pmap(case_transpose, tr if not quick else tr[::2], chunks=2))
-    chk.add_results("transpose_pattern", pmap(case_transpose_pattern, [(2, 3), (3, 2), (4, 4), (1, 5), (5, 1), (3, 5)], chunks=2))
+    chk.add_results("transpose_pattern", pmap(case_transpose_pattern, [(2, 3), (3, 2), (4, 4), (1, 5), (5, 1), (3, 5), (2, 3, "out"), (4, 4, "out")], chunks=2))
     chk.bounds = dict(programs=len(progs), buffers="4x4 i32: 2 arguments, 2 allocations, 1 constant global, 1 constant; <=3 row-tile views (2x4) at offsets {0,2,symbolic 0..2}",
                       nesting="<=2", unroll_K=2, relayout_cases=len(lays), relayout_shapes=shapes, transpose_shapes="1..5 x 1..5")
     chk.outside = ["dynamic shapes beyond the size operands of the stand-in allocation (contents are only compared for static shapes)", "uninitialised globals in the program section (the subview-of-global section has them)", "several get_global ops of one global",
